@@ -356,12 +356,27 @@ def _prod(shape) -> int:
 
 
 class NdArr:
-    def __init__(self, shape, dtype, elems):
+    """shape + dtype + elements.  Basic slicing, reshape, squeeze, transpose give *views*: they share
+    the element store with their parent, so writes through a view are seen by the parent (numpy)."""
+
+    def __init__(self, shape, dtype, elems, _store=None, _idx=None):
         self.shape = tuple(int(s) for s in shape)
         self.dtype = to_dtype(dtype)
-        self.elems = list(elems)
-        if len(self.elems) != _prod(self.shape):
-            raise LayoutMismatch(f'array of shape {self.shape} built from {len(self.elems)} elements')
+        if _store is not None:
+            self._store, self._idx = _store, list(_idx)
+        else:
+            self._store = list(elems)
+            self._idx = list(range(len(self._store)))
+        if len(self._idx) != _prod(self.shape):
+            raise LayoutMismatch(f'array of shape {self.shape} built from {len(self._idx)} elements')
+
+    @property
+    def elems(self):
+        return [self._store[i] for i in self._idx]
+
+    def _view(self, shape, positions):
+        """A view holding the elements at the given positions (indices into self.elems)."""
+        return NdArr(shape, self.dtype, None, _store=self._store, _idx=[self._idx[p] for p in positions])
 
     # construction ------------------------------------------------------------
     @classmethod
@@ -420,13 +435,18 @@ class NdArr:
     # conversions ----------------------------------------------------------------
     def astype(self, dtype, copy=True, **kw):
         dt = to_dtype(dtype)
+        if not copy and dt.name == self.dtype.name and dt.order == self.dtype.order:
+            return self
         return NdArr(self.shape, dt, [cast_elem(e, dt.name) for e in self.elems])
 
     def copy(self, *a, **k):
         return NdArr(self.shape, self.dtype, self.elems)
 
+    def flatten(self, *a, **k):
+        return NdArr((len(self._idx),), self.dtype, self.elems)
+
     def squeeze(self, *a, **k):
-        return NdArr(tuple(s for s in self.shape if s != 1), self.dtype, self.elems)
+        return self._view(tuple(s for s in self.shape if s != 1), range(len(self._idx)))
 
     def reshape(self, *shape, **k):
         if len(shape) == 1 and isinstance(shape[0], tuple | list):
@@ -435,14 +455,13 @@ class NdArr:
         if shape.count(-1) == 1:
             rest = _prod([s for s in shape if s != -1])
             shape[shape.index(-1)] = len(self.elems) // rest if rest else 0
-        if _prod(shape) != len(self.elems):
-            raise RaiseSignal('ValueError', None, 'ndarray.reshape', (f'cannot reshape array of size {len(self.elems)} into shape {tuple(shape)}',))
-        return NdArr(shape, self.dtype, self.elems)
+        if _prod(shape) != len(self._idx):
+            raise RaiseSignal('ValueError', None, 'ndarray.reshape', (f'cannot reshape array of size {len(self._idx)} into shape {tuple(shape)}',))
+        return self._view(shape, range(len(self._idx)))
 
     def ravel(self, *a, **k):
-        return NdArr((len(self.elems),), self.dtype, self.elems)
+        return self._view((len(self._idx),), range(len(self._idx)))
 
-    flatten = ravel
 
     def item(self, *a):
         if len(self.elems) != 1:
@@ -480,8 +499,8 @@ class NdArr:
             src = [0] * self.ndim
             for pos, a in enumerate(axes):
                 src[a] = idx[pos]
-            out.append(self.elems[self._flat(src)])
-        return NdArr(new_shape, self.dtype, out)
+            out.append(self._flat(src))
+        return self._view(new_shape, out)
 
     # indexing ----------------------------------------------------------------------
     def _flat(self, idx) -> int:
@@ -526,8 +545,8 @@ class NdArr:
         shape, flat = self._select(key)
         ks = key if isinstance(key, tuple) else (key,)
         if shape == () and self.ndim > 0 and all(isinstance(k, int) for k in ks) and len(ks) == self.ndim:
-            return self.elems[flat[0]]
-        return NdArr(shape, self.dtype, [self.elems[i] for i in flat])
+            return self._store[self._idx[flat[0]]]
+        return self._view(shape, flat)
 
     def __setitem__(self, key, value):
         shape, flat = self._select(key)
@@ -549,7 +568,7 @@ class NdArr:
         else:
             vs = [value] * len(flat)
         for i, v in zip(flat, vs, strict=True):
-            self.elems[i] = cast_elem(v, self.dtype.name)
+            self._store[self._idx[i]] = cast_elem(v, self.dtype.name)
 
     def __iter__(self):
         if not self.shape:
